@@ -50,7 +50,8 @@ class Csch(Operation):
 
     def backward_var(self, grad, index, **kwargs):
         (a,) = self.variables
-        return grad * -np.cosh(a.data) / np.sinh(a.data) ** 2
+        # (written so that cosh/sinh overflowing to inf gives 0, not inf/inf)
+        return -grad / (np.sinh(a.data) * np.tanh(a.data))
 
 
 class Sech(Operation):
@@ -62,7 +63,8 @@ class Sech(Operation):
 
     def backward_var(self, grad, index, **kwargs):
         (a,) = self.variables
-        return grad * -np.sinh(a.data) / np.cosh(a.data) ** 2
+        # (written so that cosh/sinh overflowing to inf gives 0, not inf/inf)
+        return -grad * np.tanh(a.data) / np.cosh(a.data)
 
 
 class Coth(Operation):
